@@ -51,17 +51,20 @@ Section Model.
     match blo b, bhi b with Some a, Some c => negb (nleb O c a) | _, _ => true end.
 
   (* tools.check_arg_in_bounds: error_case for the (array of) value(s); the upper test
-     overwrites the lower one exactly as in the code *)
+     overwrites the lower one exactly as in the code.  The code tests the NEGATED membership
+     (`not (val >= lo)` ...), so that a NaN is outside every interval; an infinite end is None here, where
+     only a NaN fails the negated test (a value equal to the infinity itself is outside the modelled space) *)
   Definition err_case (b : Bnd) (vals : list T) : nat :=
+    let anynan := existsb (nisnan O) vals in
     let e1 := match blo b with
-              | None => 0
-              | Some a => if blc b then (if existsb (fun v => nltb O v a) vals then 1 else 0)
-                          else (if existsb (fun v => nleb O v a) vals then 2 else 0)
+              | None => if anynan then (if blc b then 1 else 2) else 0      (* not (nan >= -inf) *)
+              | Some a => if blc b then (if existsb (fun v => negb (nleb O a v)) vals then 1 else 0)
+                          else (if existsb (fun v => negb (nltb O a v)) vals then 2 else 0)
               end in
     match bhi b with
-    | None => e1
-    | Some c => if bhc b then (if existsb (fun v => nltb O c v) vals then 3 else e1)
-                else (if existsb (fun v => nleb O c v) vals then 4 else e1)
+    | None => if anynan then (if bhc b then 3 else 4) else e1               (* not (nan < inf) *)
+    | Some c => if bhc b then (if existsb (fun v => negb (nleb O v c)) vals then 3 else e1)
+                else (if existsb (fun v => negb (nltb O v c)) vals then 4 else e1)
     end.
 
   (* tools.default_arg_from_bounds *)
